@@ -228,19 +228,26 @@ def _probe_tables(spec):
             base["index"] = {"kind": "multi", "levels": [{"values": ["p", "q", "r"], "dtype": "object", "name": "k1"},
                                                           {"values": [1, 2, 3], "dtype": "int64", "name": "k2"}]}
     probes = [base]
+    kinds = set()
+    from mc.props.espace import edit_kind
+
     for e in E.data_edits(base, rich=False):
-        if e[0] in ("cell", "duprow", "dropcol", "addcol", "swapcols", "coldtype", "ixcell", "mixcell", "empty"):
+        if e[0] in ("cell", "duprow", "dropcol", "addcol", "swapcols", "ixcell", "mixcell"):
+            k = edit_kind(e) + (":" + str(e[1]) if e[0] == "cell" else "")   # one probe per edit kind (cells: per column)
+            if k in kinds:
+                continue
             t = E.apply_data_edit(base, e)
             if t is not None:
+                kinds.add(k)
                 probes.append(t)
-    return probes[:7]
+    return probes[:9]
 
 
 def _verdict(schema, table):
     import pandera as pa
 
     try:
-        schema.validate(T.to_pandas(table), lazy=True)
+        schema.validate(T.to_pandas(table), lazy=False)
         return "ACCEPT"
     except (pa.errors.SchemaErrors, pa.errors.SchemaError):
         return "REJECT"
